@@ -99,6 +99,12 @@ class RecomputingDict(MutableMapping[RuleKey, AbstractStrategy]):
                         continue
                 else:
                     rule = x
+                if rule.comb_class not in self.classdb or any(
+                    c not in self.classdb for c in rule.children
+                ):
+                    # A class of this rule was never labelled, so it can't be the
+                    # rule that was stored.
+                    continue
                 try:
                     start_label = self.classdb.get_label(rule.comb_class)
                     nonempty_children = tuple(
